@@ -172,5 +172,5 @@ InitGiven == \E i \in 1..Len(Given) : D!Init0(Given[i].g, Given[i].bytes, [v |->
 SpecGiven == InitGiven /\ [][Next]_vars
 VerdictReported == ~Done \/ PrintT(<<"VERDICT", ToJson([g |-> g, bytes |-> inp, ws |-> opt.ws, nl |-> opt.nl, status |-> status, msgs |-> msgs,
                                                          root |-> IF status = "acc" THEN vals[1] ELSE -1, maxstack |-> mxd,
-                                                         nodes |-> [i \in 1..Len(nodes) |-> [k |-> nodes[i].k, sym |-> nodes[i].sym, ch |-> nodes[i].ch, off |-> nodes[i].off, len |-> nodes[i].len]]])>>)
+                                                         nodes |-> [i \in 1..Len(nodes) |-> [k |-> nodes[i].k, sym |-> nodes[i].sym, ch |-> nodes[i].ch, off |-> nodes[i].off, len |-> nodes[i].len, line |-> nodes[i].line, col |-> nodes[i].col]]])>>)
 =============================================================================
